@@ -38,6 +38,9 @@ func (e *enc) script(o *Obligation, withValues []string) string {
 		sb.WriteString(d + "\n")
 	}
 	sb.WriteString(builtinPrelude)
+	for _, d := range e.ufDecls {
+		sb.WriteString(d + "\n")
+	}
 	var body strings.Builder
 	for _, d := range e.decls[:o.NDecl] {
 		body.WriteString(d + "\n")
@@ -278,7 +281,15 @@ func solveAll(results []*FuncResult, dir string, sec int, all bool, workers int)
 			name = fmt.Sprintf("%s_%d.smt2", name[:170], i)
 		}
 		files[i] = filepath.Join(dir, name)
-		txt := j.r.Enc.script(j.o, nil)
+		enc := j.r.Enc
+		if j.r.lemmaEncs != nil {
+			for k, lo := range j.r.Obls {
+				if lo == j.o {
+					enc = j.r.lemmaEncs[k]
+				}
+			}
+		}
+		txt := enc.script(j.o, nil)
 		if len(txt) > 2_000_000 {
 			j.o.Result = &SolveResult{Status: "error", Output: fmt.Sprintf("script too large (%d bytes): split the function with contracts on its helpers", len(txt))}
 			continue
